@@ -184,6 +184,7 @@ func runC12(r *Run) error {
 func c12RunBatch(r *Run, b c12Batch) ([]c12Outcome, error) {
 	var outs []c12Outcome
 	remaining := b.Cases
+	hungChildren := 0
 	for len(remaining) > 0 {
 		f := filepath.Join(r.Out, fmt.Sprintf("c12-batch-%d.json", time.Now().UnixNano()))
 		js, _ := json.Marshal(c12Batch{Mode: b.Mode, Seed: b.Seed, Cases: remaining})
@@ -278,6 +279,24 @@ func c12RunBatch(r *Run, b c12Batch) ([]c12Outcome, error) {
 			}
 			outs = append(outs, *oc)
 		}
+		if nDone < len(remaining) && !sawCrash && hung && nDone > 0 {
+			// the child stopped making progress after a case had ended and before the next one
+			// began (tearing down, or setting up on the same process): what the last case fed in
+			// is the input to report
+			last := &outs[len(outs)-1]
+			last.hung = true
+			last.sig = "c12-other"
+			last.stderr = "the process made no progress for 90 s after this case had ended (teardown / next set-up did not complete)\n" + tail(stderr.String(), 2000)
+			sawCrash = true
+			r.Count("child-hung-after-a-case")
+		} else if nDone == 0 && !sawCrash && hung && len(remaining) > 0 {
+			// ... or before it reported the beginning of its first case (set-up and delivery of the
+			// first input on a fresh process)
+			outs = append(outs, c12Outcome{c: remaining[0], hung: true, sig: "c12-other",
+				stderr: "the process made no progress for 90 s before it reported anything about this case\n" + tail(stderr.String(), 2000)})
+			nDone, sawCrash = 1, true
+			r.Count("child-hung-before-its-first-case")
+		}
 		if nDone < len(remaining) && !sawCrash {
 			// the child stopped between two cases: not attributable to an input
 			return nil, fmt.Errorf("c12: child stopped after %d of %d cases (exit: %v, hung=%v); stderr tail:\n%s",
@@ -285,6 +304,15 @@ func c12RunBatch(r *Run, b c12Batch) ([]c12Outcome, error) {
 		}
 		remaining = remaining[nDone:]
 		r.Count("children")
+		if hung {
+			hungChildren++
+			if hungChildren >= 2 && len(remaining) > 0 {
+				// every further child would cost another 90 s: two inputs are enough to report
+				r.Count("cases-not-run-after-two-hung-children")
+				r.Notes = append(r.Notes, fmt.Sprintf("c12: %d cases of a batch were not run after two child processes had hung", len(remaining)))
+				break
+			}
+		}
 	}
 	return outs, nil
 }
@@ -378,6 +406,11 @@ func c12Record(r *Run, oc c12Outcome) {
 		en = &c12End{}
 	}
 	crashed := oc.crashed || oc.hung
+	if oc.begin == nil && c.Stream != "c" && (oc.hung || oc.crashed) {
+		// the process hung before it reported the input it was about to deliver
+		r.AddDirect("c12-other", "the process that was to handle this input stopped making progress", d)
+		return
+	}
 	switch c.Stream {
 	case "a", "b":
 		if oc.begin != nil {
